@@ -46,14 +46,17 @@ Theorem C03_table_generic_ok :
 Proof. exact table_generic_ok. Qed.
 Print Assumptions C03_table_generic_ok.
 
-(* the unguarded statement is false on the unchanged code: four classes *)
+(* the unguarded statement is false on the unchanged code: three classes *)
 Theorem C03_variadic_member_refuted : ~ c03_full_statement.
 Proof. exact variadic_member_refuted. Qed.
 Print Assumptions C03_variadic_member_refuted.
 
-Theorem C03_literal_dedup_refuted : ~ c03_full_statement.
-Proof. exact literal_dedup_refuted. Qed.
-Print Assumptions C03_literal_dedup_refuted.
+Example C03_literal_dedup_repaired :
+  let T := VNode (TGeneric c_list) [tup2 t_int t_bool] in
+  let o := OList 1 [OTuple 0 [OInt 1; OBool true]; OTuple 0 [OInt 1; OInt 1]] in
+  ca table T o = false /\ member table T o = false /\ dedup_lits [OTuple 0 [OInt 1; OBool true]; OTuple 0 [OInt 1; OInt 1]] = [OTuple 0 [OInt 1; OBool true]; OTuple 0 [OInt 1; OInt 1]].
+Proof. exact literal_dedup_repaired. Qed.
+Print Assumptions C03_literal_dedup_repaired.
 
 Theorem C03_typeddict_nonstr_key_refuted : ~ c03_full_statement.
 Proof. exact typeddict_nonstr_key_refuted. Qed.
